@@ -135,6 +135,8 @@ class Scheduler:
         self.thread_exceptions = []
         self.points_in_window = 0
         self.divergence = None
+        self.clock_deviations = 0
+        self.free_cost = 0
         self.lock_points = True             # False: uncontended lock operations are not scheduling points
         self.on_point = None                # harness invariant evaluated at every scheduling point in the window
         self.snapshot = None
@@ -207,8 +209,10 @@ class Scheduler:
                 for t in others:
                     opts.append(t); costs.append(1)
         else:
-            for t in others:
-                opts.append(t); costs.append(0)
+            for k, t in enumerate(others):
+                # the running thread blocked/finished: the switch is free; picking another than the default
+                # successor costs `free_cost` (0 = CHESS: all orders explored without limit)
+                opts.append(t); costs.append(0 if k == 0 else self.free_cost)
         if self._next_wake() is not None:
             opts.append(CLOCK)
             costs.append(1 if len(opts) > 1 else 0)
@@ -227,6 +231,8 @@ class Scheduler:
         else:
             c = 0
         self.trace.append((c, len(opts), tuple(costs), label))
+        if opts[c] is CLOCK and costs[c]:
+            self.clock_deviations += 1      # time passed although a thread was runnable (scheduling latency)
         return opts[c]
 
     def _advance_clock(self):
